@@ -99,6 +99,61 @@ Section Contents.
           apply rem_finish_inorder in Hf. simpl in H. inversion H. lists. rewrite Hf. destruct d; lists.
   Qed.
 
+  (* ------------------------------------------------------------ Tree_Rem_Fix treats `node` as opaque.
+     The C code runs Tree_Rem_Fix(node) while the node is still in the tree and splices the child in
+     afterwards (Tree_Replace); the model puts the child into the focus first.  Both agree because the
+     repair only rebuilds the CONTEXT of the focus: for every path there is a path q, computed without
+     looking at the focus, such that the result is the focus plugged into q — or the repair crashes for
+     every focus. *)
+  Lemma plug_app : forall p q t, plug t (p ++ q) = plug (plug t p) q.
+  Proof. induction p as [|f p IH]; intros q t; simpl; auto. Qed.
+
+  Lemma rem_finish_opaque : forall d pc pk pv s,
+    (exists fs, forall t, rem_finish K V t d pc pk pv s = Ok (plug t fs)) \/
+    (forall t, rem_finish K V t d pc pk pv s = Crash).
+  Proof.
+    intros d pc pk pv s. unfold rem_finish.
+    destruct s as [|sc sl sk sv sr]; [right; reflexivity|].
+    destruct (negb (cblack pc) && cblack sc && is_black K V sl && is_black K V sr).
+    { left. exists [F K V d Black pk pv (T Red sl sk sv sr)]. intros t. destruct d; reflexivity. }
+    destruct sc, d;
+      repeat match goal with
+             | |- context [if ?b then _ else _] => destruct b
+             | |- context [match ?x with E => _ | T _ _ _ _ _ => _ end] => is_var x; destruct x
+             end;
+      try (right; reflexivity);
+      match goal with
+      | |- (exists fs, forall t, Ok (T ?c (T Black t ?k ?v ?a) ?k2 ?v2 ?b) = _) \/ _ =>
+          left; exists [F K V DL Black k v a; F K V DL c k2 v2 b]; reflexivity
+      | |- (exists fs, forall t, Ok (T ?c ?a ?k2 ?v2 (T Black ?b ?k ?v t)) = _) \/ _ =>
+          left; exists [F K V DR Black k v b; F K V DR c k2 v2 a]; reflexivity
+      end.
+  Qed.
+
+  Lemma rem_fix_opaque : forall p,
+    (exists q, forall t, rem_fix K V t p = Ok (plug t q)) \/ (forall t, rem_fix K V t p = Crash).
+  Proof.
+    induction p as [|[d pc pk pv s] p IH].
+    - left. exists []. reflexivity.
+    - cbn [rem_fix]. destruct s as [|[] sl sk sv sr]; [right; reflexivity| |].
+      + destruct d.
+        * destruct (rem_finish_opaque DL Red pk pv sl) as [(fs & Hf)|Hf].
+          -- left. exists (fs ++ F K V DL Black sk sv sr :: p). intros t. rewrite Hf. simpl.
+             now rewrite plug_app.
+          -- right. intros t. now rewrite Hf.
+        * destruct (rem_finish_opaque DR Red pk pv sr) as [(fs & Hf)|Hf].
+          -- left. exists (fs ++ F K V DR Black sk sv sl :: p). intros t. rewrite Hf. simpl.
+             now rewrite plug_app.
+          -- right. intros t. now rewrite Hf.
+      + destruct (cblack pc && is_black K V sl && is_black K V sr).
+        * destruct IH as [(q & Hq)|Hq].
+          -- left. exists (F K V d Black pk pv (T Red sl sk sv sr) :: q). intros t. now rewrite Hq.
+          -- right. intros t. now rewrite Hq.
+        * destruct (rem_finish_opaque d pc pk pv (T Black sl sk sv sr)) as [(fs & Hf)|Hf].
+          -- left. exists (fs ++ p). intros t. rewrite Hf. simpl. now rewrite plug_app.
+          -- right. intros t. now rewrite Hf.
+  Qed.
+
   (* ------------------------------------------------------------ Tree_Maximum *)
   Lemma max_node_spec : forall t q, t <> E ->
     exists c l k v q', max_node K V t q = (T c l k v E, q') /\ max_kv K V t = Some (k, v) /\
